@@ -202,6 +202,16 @@ fn one(id: u64, v: &Value, bash: &Path) -> Value {
         let det_q = ansi_c_quote(&root.path().join(format!("det_{}.out", k + 1)).to_string_lossy());
         let expr = if detached { format!("exec >| {}.tmp 2>/dev/null\n{}\necho '@@@ {}'\n{}\nmv {}.tmp {}", det_q, ops.join("\n"), k + 1, PROBE, det_q, det_q) }
                    else { format!("{}\necho '@@@ {}'\n{}", ops.join("\n"), k + 1, PROBE) };
+        // a detached test case is started in the background and restores the state file whenever it gets to run: on a loaded
+        // machine that can be AFTER the following test cases have written theirs, and what it observes is then a matter of
+        // scheduling, not of the carrier. The harness orders the two: a detached test case announces that it is running
+        // (the state is restored before its expression starts), and the test case after it waits for that (in a subshell:
+        // nothing is left behind in the shell state)
+        let started = |n: usize| ansi_c_quote(&root.path().join(format!("det_{}.started", n)).to_string_lossy());
+        let expr = if detached { format!(": >| {}\n{}", started(k + 1), expr) } else { expr };
+        let expr = if k > 0 && hist[k - 1]["detached"] == json!(true) {
+            format!("( for __w in $(seq 1 300); do [ -e {} ] && break; sleep 0.1; done )\n{}", started(k), expr)
+        } else { expr };
         tcs.push(TestCase { title: format!("t{}", k + 1), shell_expression: expr, expectations: vec![], exit_code: None, line_number: k + 1, config });
     }
     // detached test cases run in the background while the executor goes on; when it is done it removes the state directory.
